@@ -132,6 +132,15 @@ func loadHarness(pkgRel string, harnessDir string) (*loadedHarness, error) {
 			return nil, err
 		}
 		pkgName = af.Name.Name
+		// "//verif:init <import path>": run that package's initialiser although the engine skips it
+		// by default (harness directories that run net/http's server need its package state)
+		for _, cg := range af.Comments {
+			for _, c := range cg.List {
+				if rest, ok := strings.CutPrefix(c.Text, "//verif:init "); ok {
+					forceInitPkgs[strings.TrimSpace(rest)] = true
+				}
+			}
+		}
 		for _, d := range af.Decls {
 			fd, ok := d.(*ast.FuncDecl)
 			if !ok || fd.Doc == nil {
